@@ -17,7 +17,7 @@ from fractions import Fraction
 PROP = 'C19'
 GENERATED = ['PregnancyFacts']
 DRIVER = 'Drivers/C19.lean'
-DRIVER_MODULES = ['StarsimModel.Model.Pregnancy', 'StarsimModel.Model.Proto']
+DRIVER_MODULES = ['StarsimModel.Model.Pregnancy', 'StarsimModel.Model.Fertility', 'StarsimModel.Model.Proto']
 RULE = ('sim configurations drawn from VERIF_SEED: fertility scalar or age-specific table, dur_pregnancy and dur_postpartum, '
         'p_maternal_death / p_neonatal_death, dt in {1, 1/2, 1/4, 1/12}, burn-in on/off, MaternalNet or Prenatal+PostnatalNet, '
         'with or without Deaths; one case = one do_step / finish_step call or one per-step snapshot replayed through the model; '
@@ -50,6 +50,25 @@ def gen_cfg(rng, thorough=False):
     return cfg
 
 
+def fixed_families(rng):
+    """ Exercised on EVERY run: long histories with repeated pregnancies while older siblings and unborn children die
+        (quarter-year and monthly steps), both layer layouts, burn-in on and off, scalar and age-specific fertility with
+        age limits narrower than the table, maternal and neonatal deaths certain. """
+    seed = lambda: rng.randint(0, 9999)
+    base = lambda **kw: dict(dict(n_agents=60, rand_seed=seed(), dt=0.25, start=2000, dur=10.0, fertility=900, dur_pregnancy=0.75,
+                                  dur_postpartum=0.1, p_maternal_death=0, p_neonatal_death=0, burnin=True, nets='prepost', deaths=150,
+                                  min_age=15, max_age=50), **kw)
+    return [('long-repeat-sibling-deaths', base()),
+            ('long-repeat-maternal-layer', base(nets='maternal', burnin=False, deaths=250, p_neonatal_death=1.0, p_maternal_death=0.3)),
+            ('table-narrow-age-limits', base(fertility='table', min_age=20, max_age=35, dur=6.0, deaths=0)),
+            ('scalar-narrow-age-limits', base(fertility=900, min_age=20, max_age=35, dur=4.0, deaths=0, nets='none')),
+            ('monthly-integer-gestation', base(dt=1 / 12, dur=2.5, dur_pregnancy=0.75, dur_postpartum=0.5, deaths=200, p_neonatal_death=0.5)),
+            ('yearly-fractional-gestation', base(dt=1.0, dur=12.0, dur_pregnancy=0.75, dur_postpartum=1.2, deaths=60)),
+            # a sim whose own time unit is not the year: ages are in years whatever the unit of the timeline
+            ('day-unit-sim', base(unit='day', dt=30, start='2000-01-01', dur=900, dur_pregnancy=0.75, dur_postpartum=0.3, deaths=100)),
+            ('week-unit-sim', base(unit='week', dt=4, start='2000-01-01', dur=120, dur_pregnancy=0.75, dur_postpartum=0.3, deaths=0, nets='maternal'))]
+
+
 def build_sim(cfg, analyzer=None):
     import starsim as ss, pandas as pd
     fert = cfg['fertility']
@@ -62,6 +81,7 @@ def build_sim(cfg, analyzer=None):
     kw = dict(fertility_rate=fert, burnin=cfg['burnin'], dur_pregnancy=ss.years(cfg['dur_pregnancy']),
               dur_postpartum=ss.lognorm_ex(mean=ss.years(cfg['dur_postpartum']), std=ss.years(0.3 * cfg['dur_postpartum'])),
               min_age=cfg['min_age'], max_age=cfg['max_age'])
+    if cfg.get('unit'): kw.update(unit=cfg['unit'], dt=cfg['dt'])   # the module on the sim's own timeline (its default unit is the year)
     if cfg['p_maternal_death']: kw['p_maternal_death'] = ss.bernoulli(cfg['p_maternal_death'])
     if cfg['p_neonatal_death']: kw['p_neonatal_death'] = ss.bernoulli(cfg['p_neonatal_death'])
     dem = [ss.Pregnancy(**kw)]
@@ -71,6 +91,7 @@ def build_sim(cfg, analyzer=None):
     if cfg['nets'] == 'prepost': nets += [ss.PrenatalNet(), ss.PostnatalNet()]
     pars = dict(n_agents=cfg['n_agents'], rand_seed=cfg['rand_seed'], dt=cfg['dt'], start=cfg['start'], dur=cfg['dur'],
                 networks=nets, demographics=dem, diseases=[ss.SIS(beta=0.05, init_prev=0.05)], verbose=0)
+    if cfg.get('unit'): pars['unit'] = cfg['unit']
     if analyzer is not None: pars['analyzers'] = [analyzer]
     return ss.Sim(**pars)
 
@@ -165,7 +186,35 @@ class Recorder:
             rec.events.append(dict(op='finish', ti=ti, pre=pre, post=snapshot(sim), pars=pars_of(sim)))
             return out
 
+        orig_fp = P.__dict__['make_fertility_prob_fn']
+        self.saved.append((P, 'make_fertility_prob_fn', orig_fp))
+        fp_func = orig_fp.__func__ if isinstance(orig_fp, staticmethod) else orig_fp
+
+        def fert_prob(self, sim, uids):
+            out = fp_func(self, sim, uids)
+            try:
+                import sciris as sc, starsim as ss
+                frd = self.fertility_rate_data
+                ppl = sim.people
+                rec_ = dict(op='fertprob', ti=int(self.ti), ages=np.asarray(ppl.age[uids], dtype=float).copy(),
+                            fecund=np.asarray(self.fecund[uids]).astype(bool).copy(),
+                            iages=np.asarray(ppl.age[~self.fecund], dtype=float).copy() if (~self.fecund).any() else np.array([]),
+                            units=float(self.pars.rate_units * self.pars.rel_fertility), minage=float(self.pars.min_age), maxage=float(self.pars.max_age),
+                            out=np.asarray(out, dtype=float).copy())
+                tf = float(ss.time_ratio(unit1=self.t.unit, dt1=self.t.dt, unit2='year', dt2=1.0))
+                if sc.isnumber(frd):
+                    rec_.update(kind='scalar', r=float(frd), tf=1.0 if isinstance(frd, ss.TimePar) else tf, target=0.0)
+                else:
+                    rec_.update(kind='table', bins=np.asarray(frd.columns.values, dtype=float), years=np.asarray(frd.index.values, dtype=float),
+                                rows=np.asarray(frd.values, dtype=float), tf=tf,
+                                target=float(self.t.now('year') - self.pars.dur_pregnancy.to('year')))
+                rec.events.append(rec_)
+            except Exception as e:
+                rec.events.append(dict(op='fertprob-error', err=f'{type(e).__name__}: {e}'))
+            return out
+
         P.do_step = do_step; P.finish_step = finish_step; P.make_pregnancies = mp
+        P.make_fertility_prob_fn = staticmethod(fert_prob)
         return self
 
     def __exit__(self, *a):
@@ -273,6 +322,34 @@ def compare_state(ml, post):
     return None
 
 
+def fracinf(x):
+    x = float(x)
+    if x == float('inf'): return '1000000000000'
+    if x == float('-inf'): return '-1000000000000'
+    return frac(x)
+
+
+def fert_line(ev):
+    kv = ['fertprob', f"kind={ev['kind']}", f"target={frac(ev['target'])}", f"units={frac(ev['units'])}", f"tf={frac(ev['tf'])}",
+          f"minage={frac(ev['minage'])}", f"maxage={frac(ev['maxage'])}", 'ages=' + lst(ev['ages'], frac), 'fecundl=' + lst(ev['fecund'], b01),
+          'wages=' + lst(ev['ages'], frac), 'iages=' + lst(ev['iages'], frac)]
+    if ev['kind'] == 'scalar':
+        kv.append(f"r={frac(ev['r'])}")
+    else:
+        kv += ['bins=' + lst(ev['bins'], fracinf), 'years=' + lst(ev['years'], fracinf), 'rows=' + ';'.join(lst(r, frac) for r in ev['rows'])]
+    return ' '.join(kv)
+
+
+def fert_compare(ml, ev):
+    if not ml.startswith('ok'): return f'model answered {ml[:100]}'
+    ms = [] if ml.strip() in ('ok', 'ok -') else ml.split()[1].split(',')
+    if len(ms) != len(ev['out']): return f"{len(ms)} probabilities vs {len(ev['out'])}"
+    for i, (m, o) in enumerate(zip(ms, ev['out'])):
+        if abs(float(Fraction(m)) - float(o)) > 2e-6 * (1 + abs(float(o))):   # the code computes in its float dtype (float32)
+            return f"woman #{i} (age {ev['ages'][i]:.2f}, fecund={bool(ev['fecund'][i])}): model {float(Fraction(m)):.6g}, code {float(o):.6g}"
+    return None
+
+
 def event_line(ev):
     pre, post = ev['pre'], ev['post']
     if ev['op'] == 'dostep':
@@ -317,6 +394,15 @@ def oracle_snapshot(ti, s):
                 fails.append((dict(oracle='links-lifetime'), f"ti={ti}: agent {m} keeps child link {c} although neither pregnant nor post-partum")); break
         elif s['pregnant'][m] and s['active'][m]:
             fails.append((dict(oracle='links'), f"ti={ti}: agent {m} is pregnant without a child link")); break
+    for c in range(n):
+        if s['active'][c] and s['alive'][c] and s['age'][c] < -TOL_AGE:
+            m = onat(s['parent'][c])
+            if m == 'x':
+                fails.append((dict(oracle='unborn-has-mother'), f"ti={ti}: unborn agent {c} (age {s['age'][c]:.3f}) has no parent")); break
+            m = int(m)
+            if s['active'][m] and s['alive'][m] and not (s['pregnant'][m] and onat(s['child'][m]) == str(c)):
+                fails.append((dict(oracle='unborn-has-pregnant-mother'),
+                              f"ti={ti}: unborn agent {c} (age {s['age'][c]:.3f}) is alive but its living mother {m} is not pregnant with it (pregnant={bool(s['pregnant'][m])}, child_uid={onat(s['child'][m])})")); break
     if s['has_pre']:
         live = [(a, b) for (a, b, be, d, st, sp) in s['pre'] if be > 0]
         preg = sorted(int(u) for u in range(n) if s['pregnant'][u] and s['active'][u])
@@ -339,7 +425,7 @@ def oracle_history(cfg, events, snaps, pars):
     g = pars['g']; dty = pars['dty']
     # conception eligibility (state before the call that conceived)
     for ev in events:
-        if ev['op'] != 'dostep' or ev['err']: continue
+        if ev['op'] != 'dostep' or ev.get('err'): continue
         pre = ev['pre']
         # update_states runs first inside do_step: evaluate eligibility on the flags after update_states = post flags of non-conceivers;
         # fecund-before is judged leniently: a woman delivering/ending post-partum in this very call is excluded below
@@ -426,12 +512,17 @@ def run_oracle(cfg):
 
 def correspond(ctx):
     nsims = ctx.budget(10, 70)
-    max_lines = ctx.budget(700, 6000)
+    max_lines = ctx.budget(1100, 6000)
     lines = []; meta = []
+    fam = fixed_families(ctx.rng)
+    ctx.notes['fixed_families'] = [nm for nm, _ in fam]
+    cfgs = [c for _, c in fam]
     for i in range(nsims):
         cfg = gen_cfg(ctx.rng, ctx.thorough)
         if i < 4:   # make sure both burn-in settings and both layer layouts occur
             cfg['burnin'] = bool(i % 2); cfg['nets'] = ['prepost', 'maternal'][i // 2]
+        cfgs.append(cfg)
+    for cfg in cfgs:
         try:
             sim, events, snaps = run_recorded(cfg)
         except Exception as e:
@@ -445,7 +536,15 @@ def correspond(ctx):
             got = [ev['ti'] for ev in events if ev['op'] == 'dostep' and ev['simti'] == 0 and ev['ti'] < 0]
             lines.append(' '.join(['burnsteps'] + pars_kv(p, snaps[0][1]))); meta.append(('burn', got, dict(kind='sim', cfg=cfg)))
         items = []
+        nf = 0
         for ev in events:
+            if ev['op'] == 'fertprob-error':
+                ctx.broke('correspondence', 'C19.fertprob', f"could not record make_fertility_prob_fn: {ev['err']}", data=dict(kind='sim', cfg=cfg)); continue
+            if ev['op'] == 'fertprob':
+                nf += 1
+                if nf <= 6 and len(ev['ages']) <= 400:
+                    items.append((fert_line(ev), ('fert', ev), dict(kind='sim', cfg=cfg, op='fertprob', ti=ev['ti'])))
+                continue
             if ev['pre']['n'] > 400: continue
             if ev.get('err'):
                 continue
@@ -475,6 +574,13 @@ def correspond(ctx):
                 ctx.broke('correspondence', 'C19.burnin', f'burn-in steps: model {mg}, code ran do_step at {got}', data=m[2])
             continue
         kind, data = m[0], m[1]
+        if kind[0] == 'fert':
+            ev = kind[1]
+            ctx.case(line, bool(len(ev['ages'])))
+            d = fert_compare(ml, ev)
+            if d:
+                ctx.broke('correspondence', 'C19.fertprob', f"make_fertility_prob_fn ({ev['kind']} fertility) at ti={ev['ti']}: {d}", data=data)
+            continue
         if kind[0] == 'ev':
             ev = kind[1]
             nontrivial = bool(ev['pre']['pregnant'].any() or ev['pre']['postpartum'].any() or ev.get('conceive'))
@@ -494,10 +600,13 @@ def correspond(ctx):
 
 def search(ctx):
     n = ctx.budget(12, 80)
+    cfgs = [c for _, c in fixed_families(ctx.rng)]
     for i in range(n):
         cfg = gen_cfg(ctx.rng, ctx.thorough)
         if i < 4:
             cfg['burnin'] = bool(i % 2); cfg['nets'] = ['prepost', 'maternal'][i // 2]
+        cfgs.append(cfg)
+    for cfg in cfgs:
         try:
             fails = run_oracle(cfg)
         except Exception as e:
